@@ -19,6 +19,8 @@ def parse_value(txt):
     t = txt.replace("PrimFloat.", "")
     t = re.sub(r"%(float|Z|nat|positive|Q|N)\b", "", t)
     t = re.sub(r"-?0x[0-9a-fA-F.]+p[-+]?\d+", lambda m: repr(float.fromhex(m.group(0))), t)
+    t = re.sub(r"Some \((-?[\w.+-]+)\)", r"(\1)", t)
+    t = re.sub(r"Some (-?[\w.+-]+)", r"(\1)", t)
     t = t.replace(";", ",")
     t = re.sub(r"\bneg_infinity\b", "(-inf)", t)
     t = re.sub(r"\binfinity\b", "inf", t)
